@@ -1072,6 +1072,29 @@ def check_phantom_attributes():
     return out
 
 
+def check_dense_auto(density, formula_name, option):
+    """an emmodel that works on another medium than the layer it was given (dense_snow_correction="auto": the phase-inverted twin above one
+    half) resolves the arguments of its mixing formula from the medium it works with: effective_permittivity() is the direct call of the
+    formula with the emmodel's own frac_volume, e0, eps and inclusion_shape"""
+    from smrt.emmodel.iba import IBA, derived_IBA
+    from smrt.inputs import sensor_list
+    from smrt.inputs.make_medium import make_snow_layer
+    from smrt.permittivity import generic_mixing_formula as g
+    formula = getattr(g, formula_name)
+    cls = IBA if formula_name == "polder_van_santen" else derived_IBA(formula)
+    lay = make_snow_layer(1.0, "exponential", density=density, temperature=260.0, corr_length=1e-4)
+    em = cls(sensor_list.passive(19e9, 53.), lay, dense_snow_correction=option)
+    got = complex(em.effective_permittivity())
+    kw = dict(e0=em.e0, eps=em.eps)
+    if formula_name in ("polder_van_santen", "maxwell_garnett", "bruggeman"):
+        kw["inclusion_shape"] = getattr(em, "inclusion_shape", None)
+    want = complex(np.squeeze(formula(em.frac_volume, **kw)))
+    if not abs(got - want) <= 1e-12 * abs(want):
+        return ("emmodel.iba:works-on-other-medium", f"IBA({formula_name}, dense_snow_correction={option!r}) on snow of density {density}: effective_permittivity() = {got} "
+                f"but {formula_name}(frac_volume={em.frac_volume:.4f}, e0={em.e0}, eps={em.eps}) = {want}", str(got), str(want))
+    return None
+
+
 def finding_of(case, r):
     d = table()["decls"][case["fn"]]
     key = f"{d['module']}.{d['name']}:{r[0]}"
@@ -1144,6 +1167,14 @@ def oracle(ctx, hints, effort):
             for r in check_pinned_required(name, d, prop, rng):
                 findings.append(Finding(f"{d['module']}.{d['name']}:{r[0]}", f"{d['name']}: {r[1]}", {"kind": "pinned-required", "fn": name, "prop": prop},
                                         r[2], r[3]))
+
+    for density in (250.0, round(float(rng.uniform(480, 600)), 1), round(float(rng.uniform(600, 850)), 1)):
+        for fname in ("polder_van_santen", "maxwell_garnett"):
+            for option in (None, "auto"):
+                evals += 1
+                r = check_dense_auto(density, fname, option)
+                if r:
+                    findings.append(Finding(r[0], r[1], {"kind": "dense-auto", "density": density, "formula": fname, "option": option}, r[2], r[3]))
 
     def run(case):
         nonlocal evals
@@ -1262,6 +1293,9 @@ def replay(inp, rp=None):
         d = table()["decls"][inp["fn"]]
         rs = check_pinned_required(inp["fn"], d, inp["prop"], np.random.default_rng(0))
         return Finding(f"{d['module']}.{d['name']}:{rs[0][0]}", rs[0][1], inp, rs[0][2], rs[0][3]) if rs else None
+    if inp.get("kind") == "dense-auto":
+        r = check_dense_auto(inp["density"], inp["formula"], inp["option"])
+        return None if r is None else Finding(r[0], r[1], inp, r[2], r[3])
     if inp.get("kind") == "phantom":
         rs = check_phantom_attributes()
         return Finding(rs[0][0], rs[0][1], inp, rs[0][2], rs[0][3]) if rs else None
